@@ -76,6 +76,60 @@ def concretise(ds, hist, rng):
     return pres, reorder
 
 
+def shipped(ctx, rng, wd):
+    """The shipped examples, re-presented at text level (cv/represent.py: blocks re-ordered verbatim)."""
+    import yaml
+    from cv.core import REPO
+    from cv.represent import represent
+    examples = [("akimotoite", "input01", "input02")] + ([("diopside", "input01", "input02")] if ctx.tier == "thorough" else [])
+    for name, ph, st in examples:
+        src = REPO / "examples" / name
+        cfg = yaml.safe_load((src / "settings.yaml").read_text())
+        cfg["qha"]["settings"].update({"NT": 4, "DT": 400, "DT_SAMPLE": 400, "NTV": 31, "DELTA_P": 1.0, "DELTA_P_SAMPLE": 1.0})
+        cfg["output"] = {"pressure_base": ["cij"], "volume_base": ["p"]}
+
+        def run_pres(tag, pres):
+            d = wd.sub(f"{name}_{tag}")
+            counts, ncol, nrow = represent(src, d, ph, st, pres)
+            (d / "settings.yaml").write_text(yaml.safe_dump(cfg))
+            return counts, ncol, nrow, d
+
+        (nv, nq, np_, _, _), ncol, nrow, d0 = run_pres("base", {})
+        try:
+            base = snapshot(run(d0 / "settings.yaml"))
+        except Exception as ex:
+            raise MachineryError(f"baseline run of examples/{name} failed: {ex!r}")
+
+        def perm(n, lo=0):
+            p = list(range(lo)) + [int(i) + lo for i in rng.permutation(n - lo)]
+            return p if p != list(range(n)) else list(range(lo)) + list(range(lo, n))[::-1]
+        cases = [("q+modes+weights", {"q_perm": perm(nq, 1), "mode_perms": {0: list(range(3)) + perm(np_, 3)[3:], 1: perm(np_), nq - 1: perm(np_)},
+                                      "w_scale": 7.3}, False),
+                 ("columns+case+rows", {"col_perm": perm(ncol), "upper": True, "row_perm": perm(nrow)}, False),
+                 ("volumes reversed", {"vol_perm": list(range(nv))[::-1]}, True)]
+        if ctx.tier == "thorough":
+            cases += [("volumes shuffled", {"vol_perm": perm(nv)}, True), ("everything", {**cases[0][1], **cases[1][1]}, False)]
+        for tag, pres, reorder in cases:
+            case = {"example": name, "actions": tag}
+            ctx.count(case)
+            _, _, _, d = run_pres(tag.replace(" ", "_").replace("+", "_"), pres)
+            sig = {"actions": tag, "example": name}
+            try:
+                snap = snapshot(run(d / "settings.yaml"))
+            except Exception as ex:
+                if not reorder:
+                    ctx.violation(f"examples/{name} re-presented ({tag}) makes the calculation fail: {ex!r}", case, {**sig, "clause": "raises"})
+                continue
+            for k, a in base.items():
+                b = snap.get(k)
+                scale = float(numpy.nanmax(numpy.abs(a))) or 1.0
+                if b is None or b.shape != a.shape or not numpy.allclose(a, b, rtol=0, atol=1e-7 * scale, equal_nan=True):
+                    dev = float(numpy.nanmax(numpy.abs(a - b))) / scale if b is not None and b.shape == a.shape else float("nan")
+                    ctx.violation(f"examples/{name} re-presented ({tag}) changes {k} by {dev:.3g} (relative to its scale)", {**case, "quantity": k, "dev": dev},
+                                  {**sig, "clause": "differs", "reorder": reorder})
+                    break
+
+
 def main(ctx, replay=None):
     logging.getLogger("cij").setLevel(logging.CRITICAL)
     rng = numpy.random.default_rng(ctx.seed + 1313)
@@ -144,6 +198,7 @@ def main(ctx, replay=None):
                         ctx.violation(f"re-presentation {names} changes {k} by {dev:.3g} (relative to its scale)", {**case, "quantity": k, "dev": dev},
                                       {**sig, "clause": "differs", "reorder": reorder})
                         break
+        shipped(ctx, rng, wd)
         ctx.sample({"sequence": seqs[0]})
         ctx.sample({"sequence": seqs[-1]})
     finally:
